@@ -118,6 +118,12 @@ Theorem c20_model_explained : forall inp,
 Proof. exact case_explained. Qed.
 Print Assumptions c20_model_explained.
 
+(* --- a known-finding signature is returned only if the implementation's WHOLE observable equals
+       the faithful model's observable: no regression can hide behind a recorded shape --- *)
+Theorem c20_sig_requires_model : forall inp obs, finding_sig inp obs <> 0 -> obs = run_case inp.
+Proof. exact sig_requires_model. Qed.
+Print Assumptions c20_sig_requires_model.
+
 (* --- the two departures of the code from the property (witnesses = corpus/C20/layering/finding*.case) --- *)
 Theorem c20_bandwidth_reset_refuted :
   wf_input koord_schemas (decode witness_bandwidth) = true
